@@ -10,6 +10,7 @@ set_option linter.unusedSimpArgs false
 namespace Mqtt.Proofs.Broker
 open Mqtt.Iface.Broker Mqtt.Model.Broker
 open Mqtt.Model.Topics (MemTopics RMsg SNode RNode levels validQos Level)
+open Mqtt.Proofs.Topics (entryLevels)
 open Mqtt.Proofs.Topics (WF RWF abs absR good)
 
 theorem Inv_of_frame' (b b' : B) (h : Inv b) (hc : b'.conns = b.conns) (hs : b'.sess = b.sess)
@@ -80,17 +81,17 @@ theorem retain_flag (mt : MemTopics) (r : RMsg) (hwf : RWF mt.rroot)
     (hf : ∀ e ∈ absR mt.rroot, e.2.retain = true) (hr : r.retain = true) :
     ∀ e ∈ absR (mt.retain r).1.rroot, e.2.retain = true := by
   rw [retain_rroot]
-  obtain ⟨_, _, h3, h4, h5, h6⟩ := Mqtt.Properties.C06.C06_retained_trie_refines mt.rroot (levels r.topic).1 r hwf
+  obtain ⟨_, _, h3, h4, h5, h6⟩ := Mqtt.Properties.C06.C06_retained_trie_refines mt.rroot (entryLevels r.topic).1 r hwf
   intro e he
   split at he
-  · cases hl : (levels r.topic).2 with
+  · cases hl : (entryLevels r.topic).2 with
     | true =>
       rw [hl] at he
       exact hf e (List.mem_filter.mp (h5.mem_iff.mp he)).1
     | false =>
       rw [hl, h6] at he
       exact hf e he
-  · cases hl : (levels r.topic).2 with
+  · cases hl : (entryLevels r.topic).2 with
     | true =>
       rw [hl] at he
       have := h3.mem_iff.mp he
@@ -177,7 +178,7 @@ theorem unsubFold_frame (c : Nat) (topics : List Bytes) : ∀ ts : MemTopics, WF
     intro ts h
     simp only [List.foldl_cons]
     obtain ⟨h1, h2⟩ := ih _ (unsubscribe_WF ts t (some c) h)
-    exact ⟨h1, h2⟩
+    exact ⟨h1, h2.trans (unsubscribe_rroot ts t (some c))⟩
 
 theorem unsubAll_frame (c : Nat) (l : List (Bytes × Nat)) : ∀ ts : MemTopics, WF ts.sroot →
     WF (unsubAll ts c l).sroot ∧ (unsubAll ts c l).rroot = ts.rroot := by
@@ -188,7 +189,7 @@ theorem unsubAll_frame (c : Nat) (l : List (Bytes × Nat)) : ∀ ts : MemTopics,
     obtain ⟨t, q⟩ := tq
     unfold unsubAll
     obtain ⟨h1, h2⟩ := ih _ (unsubscribe_WF ts t (some c) h)
-    exact ⟨h1, h2⟩
+    exact ⟨h1, h2.trans (unsubscribe_rroot ts t (some c))⟩
 
 theorem resubscribe_frame (c : Nat) (l : List (Bytes × Nat)) : ∀ ts : MemTopics, WF ts.sroot →
     WF (resubscribe ts c l).sroot ∧ (resubscribe ts c l).rroot = ts.rroot := by
@@ -302,7 +303,8 @@ theorem Inv_srvSub (b : B) (cb : Nat) (f : Bytes) (q : Nat) (h : Inv b) : Inv (s
 
 theorem Inv_srvUnsub (b : B) (cb : Nat) (f : Bytes) (h : Inv b) : Inv (srvUnsub b cb f).1 := by
   unfold srvUnsub
-  exact Inv_of_frame b _ h rfl rfl (unsubscribe_WF b.topics f (some cb) h.wf) rfl
+  exact Inv_of_frame b _ h rfl rfl (unsubscribe_WF b.topics f (some cb) h.wf)
+    (unsubscribe_rroot b.topics f (some cb))
 
 /-! ### first packet -/
 
